@@ -126,6 +126,7 @@ class CallMixin:
         key = info.key
         contract = self.contracts.get(key)
         if contract is not None and key not in self.inline_override:
+            self.contracts_applied.add(key)
             return contract(self, fv, args, kwargs, node)
         if self.depth > 60:
             raise Unsupported("recursion depth")
